@@ -5,8 +5,12 @@
 //! synchronisation primitives, which are shuttle's: each atomic access and each lock operation is
 //! a scheduling point of the controlled scheduler. Code that uses none of them is unchanged.
 //!
+//! `std::cell::{Cell, RefCell, UnsafeCell}` are wrapped as well (module `cell`): each access calls a
+//! function the harness installs, which makes it a scheduling point - cells that the crate shares
+//! between threads behind an `unsafe impl Sync` are interleaved like atomics.
+//!
 //! Not intercepted: the `thread_local!` macro (it comes from the macro prelude, not from a `std::`
-//! path) and `std::cell` types (not `Sync`: their use is caught by the Send/Sync probe).
+//! path), `core::` / `alloc::` paths, and accesses through raw pointers.
 
 pub use ::std::*;
 
@@ -91,4 +95,213 @@ pub mod thread {
     pub use ::std::thread::*;
 
     pub use ::shuttle::thread::{current, park, sleep, spawn, yield_now, JoinHandle, Thread, ThreadId};
+}
+
+/// `std::cell` with the interior-mutability types wrapped: every access is announced to a function
+/// the harness installs (a scheduling point), so that cells which the crate shares between threads
+/// behind an `unsafe impl Sync` are interleaved like atomics. Without an installed function the
+/// types behave exactly like std's.
+pub mod cell {
+    pub use ::std::cell::{BorrowError, BorrowMutError, LazyCell, OnceCell, Ref, RefMut};
+    use ::std::sync::atomic::{AtomicUsize, Ordering};
+
+    static POINT: AtomicUsize = AtomicUsize::new(0);
+
+    /// install the function called before every cell access; `false` if one was installed already
+    pub fn install_point(f: fn(&'static str)) -> bool {
+        POINT.compare_exchange(0, f as usize, Ordering::SeqCst, Ordering::SeqCst).is_ok()
+    }
+
+    #[inline]
+    fn point(label: &'static str) {
+        let p = POINT.load(Ordering::SeqCst);
+        if p != 0 {
+            let f: fn(&'static str) = unsafe { ::std::mem::transmute::<usize, fn(&'static str)>(p) };
+            f(label)
+        }
+    }
+
+    #[derive(Default)]
+    #[repr(transparent)]
+    pub struct Cell<T: ?Sized>(::std::cell::Cell<T>);
+    impl<T> Cell<T> {
+        pub const fn new(v: T) -> Self {
+            Cell(::std::cell::Cell::new(v))
+        }
+        pub fn set(&self, v: T) {
+            point("Cell::set");
+            self.0.set(v)
+        }
+        pub fn replace(&self, v: T) -> T {
+            point("Cell::replace");
+            self.0.replace(v)
+        }
+        pub fn swap(&self, other: &Self) {
+            point("Cell::swap");
+            self.0.swap(&other.0)
+        }
+        pub fn into_inner(self) -> T {
+            self.0.into_inner()
+        }
+    }
+    impl<T: Copy> Cell<T> {
+        pub fn get(&self) -> T {
+            point("Cell::get");
+            self.0.get()
+        }
+        pub fn update(&self, f: impl FnOnce(T) -> T) {
+            let old = self.get();
+            self.set(f(old));
+        }
+    }
+    impl<T: Default> Cell<T> {
+        pub fn take(&self) -> T {
+            point("Cell::take");
+            self.0.take()
+        }
+    }
+    impl<T: ?Sized> Cell<T> {
+        pub const fn as_ptr(&self) -> *mut T {
+            self.0.as_ptr()
+        }
+        pub fn get_mut(&mut self) -> &mut T {
+            self.0.get_mut()
+        }
+    }
+    impl<T: Copy> Clone for Cell<T> {
+        fn clone(&self) -> Self {
+            Cell::new(self.get())
+        }
+    }
+    impl<T: Copy + ::std::fmt::Debug> ::std::fmt::Debug for Cell<T> {
+        fn fmt(&self, f: &mut ::std::fmt::Formatter<'_>) -> ::std::fmt::Result {
+            self.0.fmt(f)
+        }
+    }
+    impl<T: Copy + PartialEq> PartialEq for Cell<T> {
+        fn eq(&self, o: &Self) -> bool {
+            self.get() == o.get()
+        }
+    }
+    impl<T: Copy + Eq> Eq for Cell<T> {}
+    impl<T: Copy + PartialOrd> PartialOrd for Cell<T> {
+        fn partial_cmp(&self, o: &Self) -> Option<::std::cmp::Ordering> {
+            self.get().partial_cmp(&o.get())
+        }
+    }
+    impl<T> From<T> for Cell<T> {
+        fn from(v: T) -> Self {
+            Cell::new(v)
+        }
+    }
+
+    #[derive(Default)]
+    pub struct RefCell<T: ?Sized>(::std::cell::RefCell<T>);
+    impl<T> RefCell<T> {
+        pub const fn new(v: T) -> Self {
+            RefCell(::std::cell::RefCell::new(v))
+        }
+        pub fn into_inner(self) -> T {
+            self.0.into_inner()
+        }
+        pub fn replace(&self, v: T) -> T {
+            point("RefCell::replace");
+            self.0.replace(v)
+        }
+        pub fn replace_with<F: FnOnce(&mut T) -> T>(&self, f: F) -> T {
+            point("RefCell::replace_with");
+            self.0.replace_with(f)
+        }
+        pub fn swap(&self, other: &Self) {
+            point("RefCell::swap");
+            self.0.swap(&other.0)
+        }
+    }
+    impl<T: Default> RefCell<T> {
+        pub fn take(&self) -> T {
+            point("RefCell::take");
+            self.0.take()
+        }
+    }
+    impl<T: ?Sized> RefCell<T> {
+        pub fn borrow(&self) -> Ref<'_, T> {
+            point("RefCell::borrow");
+            self.0.borrow()
+        }
+        pub fn try_borrow(&self) -> Result<Ref<'_, T>, BorrowError> {
+            point("RefCell::try_borrow");
+            self.0.try_borrow()
+        }
+        pub fn borrow_mut(&self) -> RefMut<'_, T> {
+            point("RefCell::borrow_mut");
+            self.0.borrow_mut()
+        }
+        pub fn try_borrow_mut(&self) -> Result<RefMut<'_, T>, BorrowMutError> {
+            point("RefCell::try_borrow_mut");
+            self.0.try_borrow_mut()
+        }
+        pub fn as_ptr(&self) -> *mut T {
+            self.0.as_ptr()
+        }
+        pub fn get_mut(&mut self) -> &mut T {
+            self.0.get_mut()
+        }
+    }
+    impl<T: Clone> Clone for RefCell<T> {
+        fn clone(&self) -> Self {
+            RefCell::new(self.borrow().clone())
+        }
+    }
+    impl<T: ?Sized + ::std::fmt::Debug> ::std::fmt::Debug for RefCell<T> {
+        fn fmt(&self, f: &mut ::std::fmt::Formatter<'_>) -> ::std::fmt::Result {
+            self.0.fmt(f)
+        }
+    }
+    impl<T: ?Sized + PartialEq> PartialEq for RefCell<T> {
+        fn eq(&self, o: &Self) -> bool {
+            *self.borrow() == *o.borrow()
+        }
+    }
+    impl<T> From<T> for RefCell<T> {
+        fn from(v: T) -> Self {
+            RefCell::new(v)
+        }
+    }
+
+    /// the access through the raw pointer follows the call of `get`: the point before `get` is the
+    /// closest the facade can come to it
+    #[derive(Default)]
+    #[repr(transparent)]
+    pub struct UnsafeCell<T: ?Sized>(::std::cell::UnsafeCell<T>);
+    impl<T> UnsafeCell<T> {
+        pub const fn new(v: T) -> Self {
+            UnsafeCell(::std::cell::UnsafeCell::new(v))
+        }
+        pub fn into_inner(self) -> T {
+            self.0.into_inner()
+        }
+    }
+    impl<T: ?Sized> UnsafeCell<T> {
+        pub fn get(&self) -> *mut T {
+            point("UnsafeCell::get");
+            self.0.get()
+        }
+        pub fn get_mut(&mut self) -> &mut T {
+            self.0.get_mut()
+        }
+        pub fn raw_get(this: *const Self) -> *mut T {
+            point("UnsafeCell::raw_get");
+            ::std::cell::UnsafeCell::raw_get(this as *const ::std::cell::UnsafeCell<T>)
+        }
+    }
+    impl<T: ?Sized> ::std::fmt::Debug for UnsafeCell<T> {
+        fn fmt(&self, f: &mut ::std::fmt::Formatter<'_>) -> ::std::fmt::Result {
+            f.debug_struct("UnsafeCell").finish_non_exhaustive()
+        }
+    }
+    impl<T> From<T> for UnsafeCell<T> {
+        fn from(v: T) -> Self {
+            UnsafeCell::new(v)
+        }
+    }
 }
